@@ -973,6 +973,87 @@ fn gen_expull_writes(rng: &mut Rng, nlists: usize, n: usize, big: usize) -> Vec<
 }
 
 // ------------------------------------------------------------------------------------------
+// block-level programs mixing advance and seek on one BlockSegmentPostings
+// ------------------------------------------------------------------------------------------
+/// `ops`: None = advance (generated only out of a full block), Some(t) = seek(t). The oracle tracks
+/// the block start `n` on the doc list: advance moves to n+128; seek steps over full blocks whose
+/// last doc is < t and then answers the first doc >= t from the block start on.
+fn check_block_ops(ctx: &mut Ctx, opt: Opt, l: &(Vec<u32>, Vec<u32>), ops: &[Option<u32>], model: bool) {
+    use crate::props::c07::real_postings_bytes;
+    let prog: Vec<String> = ops.iter().map(|o| match o { None => "A".to_string(), Some(t) => format!("S{t}") }).collect();
+    let case = json!({"kind": "block-ops", "opt": opt.name(), "docs": l.0, "tfs": l.1, "ops": prog});
+    ctx.report.case(&format!("block-ops|{}|{}|{}", opt.name(), l.0.len() / 128, prog.iter().map(|p| &p[..1]).collect::<String>()), !ops.is_empty());
+    ctx.report.count("block-ops");
+    let tfs: Vec<u32> = if opt == Opt::Basic { vec![1; l.0.len()] } else { l.1.clone() };
+    let mut n = 0usize;
+    let mut want = vec![];
+    for o in ops {
+        match o {
+            None => {
+                if l.0.len() - n.min(l.0.len()) < 128 { return; } // not a program of the precondition
+                n += 128;
+                want.push(l.0.get(n).copied().unwrap_or(TERMINATED));
+            }
+            Some(t) => {
+                while l.0.len() - n >= 128 && l.0[n + 127] < *t { n += 128; }
+                want.push(l.0[n..].iter().copied().find(|d| d >= t).unwrap_or(TERMINATED));
+            }
+        }
+    }
+    let r = catch_unwind(AssertUnwindSafe(|| -> Result<(Vec<u8>, Vec<u32>), String> {
+        let bytes = real_postings_bytes(opt, &l.0, &tfs);
+        let mut cur = tantivy::verif::c07_open_block_postings(l.0.len() as u32, bytes.clone(), opt.real(), opt.real()).map_err(|e| e.to_string())?;
+        let mut out = vec![];
+        for o in ops {
+            match o {
+                None => { cur.advance(); out.push(cur.doc(0)); }
+                Some(t) => { let idx = cur.seek(*t); out.push(cur.doc(idx)); }
+            }
+        }
+        Ok((bytes, out))
+    }));
+    let (bytes, out) = match r {
+        Ok(Ok(x)) => x,
+        Ok(Err(e)) => { ctx.report.violation("oracle", "C07:read-error", format!("block-ops: {e}"), case); return; }
+        Err(p) => { ctx.report.violation("oracle", "C07:panic", format!("block-ops ({} docs): {}", l.0.len(), panic_msg(p)), case); return; }
+    };
+    if out != want {
+        let i = out.iter().zip(&want).position(|(x, y)| x != y).unwrap_or(0);
+        ctx.report.violation("oracle", "C07:block-ops", format!("{}: block-level program on a {}-doc list: op #{i} ({}) shows {:?}, the doc list prescribes {:?}", opt.name(), l.0.len(), prog[i], out.get(i), want.get(i)), case.clone());
+    }
+    if model {
+        let m = ctx.model.ask(&format!("C07 lazyops {} {} {} {}", opt.name(), l.0.len(), hex(&bytes), if prog.is_empty() { "-".to_string() } else { prog.join(",") }));
+        let real = crate::model::nat_list(&out);
+        if m != real {
+            let sh = |s: &str| if s.len() > 120 { format!("{}…", &s[..120]) } else { s.to_string() };
+            ctx.report.violation("model", "C07:model-lazyops", format!("{}: block-level program on {} docs: real {} model {}", opt.name(), l.0.len(), sh(&real), sh(&m)), case);
+        }
+    }
+}
+
+fn gen_block_ops(rng: &mut Rng, docs: &[u32]) -> Vec<Option<u32>> {
+    let mut n = 0usize;
+    let mut ops = vec![];
+    let top = docs.last().copied().unwrap_or(10) + 3;
+    for _ in 0..(1 + rng.usize_below(7)) {
+        if docs.len() - n >= 128 && rng.below(3) == 0 {
+            ops.push(None);
+            n += 128;
+        } else {
+            let t = match rng.below(5) {
+                0 if n < docs.len() => docs[n + rng.usize_below(docs.len() - n)],
+                1 if docs.len() - n >= 128 => docs[n + 127] + rng.below(2) as u32,
+                2 => TERMINATED,
+                _ => rng.below(top as u64 + 1) as u32,
+            };
+            ops.push(Some(t));
+            while docs.len() - n >= 128 && docs[n + 127] < t { n += 128; }
+        }
+    }
+    ops
+}
+
+// ------------------------------------------------------------------------------------------
 pub fn obligations() -> Vec<String> {
     vec![
         "TermInfoStore bytes written through TermDictionaryBuilder = model `tis_write`; model `tis_get` of the real bytes = written TermInfo; TermDictionary::get = written TermInfo".into(),
@@ -980,6 +1061,7 @@ pub fn obligations() -> Vec<String> {
         "segments whose recorders see 2^(7k)-1, 2^(7k), 2^(7k)+1 as position+1, term frequency or doc-id gap read back exactly".into(),
         "index sorted by a fast field (doc_id_map branch of Recorder::serialize): read-back = inversion in the new order = model `pipeline_remap`".into(),
         "ExpUnrolledLinkedList: read_to_end of every list sharing a MemoryArena = the bytes written to it, = the Lean model (op expull, arena length included)".into(),
+        "block-level programs of BlockSegmentPostings::advance / seek show what the doc list prescribes (block start tracked on the list) and = the lazy cursor model (op lazyops)".into(),
         "a program of BlockSegmentPostings::seek calls lands on the first doc >= target each time and = the lazy cursor model (op lazyseeks)".into(),
         "recycled block cursor (read_block_postings_from_terminfo, advance/drain/seek, reset_block_postings_from_terminfo) enumerates exactly the new term".into(),
     ]
@@ -1005,6 +1087,13 @@ pub fn replay(ctx: &mut Ctx, case: &J) -> bool {
             }).collect()).unwrap_or_default();
             let has = ctx.model.ask("C07 expull 1 -") != "bad-op";
             check_expull(ctx, n.max(1), &ws, has);
+        }
+        "block-ops" => {
+            let u = |k: &str| -> Vec<u32> { case[k].as_array().map(|a| a.iter().filter_map(|x| x.as_u64()).map(|x| x as u32).collect()).unwrap_or_default() };
+            let opt = Opt::from_name(case["opt"].as_str().unwrap_or("")).unwrap_or(Opt::Basic);
+            let ops: Vec<Option<u32>> = case["ops"].as_array().map(|a| a.iter().filter_map(|x| { let w = x.as_str()?; if w == "A" { Some(None) } else { w[1..].parse().ok().map(Some) } }).collect()).unwrap_or_default();
+            let has = ctx.model.ask("C07 lazyops basic 0 - -") != "bad-op";
+            check_block_ops(ctx, opt, &(u("docs"), u("tfs")), &ops, has);
         }
         "lazy-seeks" => {
             let u = |k: &str| -> Vec<u32> { case[k].as_array().map(|a| a.iter().filter_map(|x| x.as_u64()).map(|x| x as u32).collect()).unwrap_or_default() };
@@ -1074,16 +1163,16 @@ pub fn run(ctx: &mut Ctx, model_has_vint32: bool) {
         ctx.report.violation("model", "C07:model-unavailable", "the Lean driver answers bad-op for expull".into(), json!({"kind": "probe"}));
     }
     let mut rng4 = ctx.rng.fork();
-    for round in 0..ctx.budget(60, 1500) {
+    for round in 0..ctx.budget(60, 240) {
         let nlists = 1 + rng4.usize_below(4);
         let n = match round % 6 { 0 => rng4.usize_below(4), 1 => 40 + rng4.usize_below(200), _ => 1 + rng4.usize_below(40) };
-        let big = if round % 10 == 3 { 20_000 } else { 0 };
+        let big = if round % 10 == 3 && n <= 40 { 20_000 } else { 0 };
         let ws = gen_expull_writes(&mut rng4, nlists, n, big);
         check_expull(ctx, nlists, &ws, has_expull);
     }
     if ctx.thorough() {
         // across the 1 MiB page of the arena
-        let ws: Vec<(usize, Vec<u8>)> = (0..5).map(|k| (k % 2, (0..300_000u32).map(|x| (x.wrapping_mul(2654435761).wrapping_add(k as u32) >> 13) as u8).collect())).collect();
+        let ws: Vec<(usize, Vec<u8>)> = (0..5).map(|k| (k % 2, (0..230_000u32).map(|x| (x.wrapping_mul(2654435761).wrapping_add(k as u32) >> 13) as u8).collect())).collect();
         check_expull(ctx, 2, &ws, has_expull);
     }
     let has_lazy = ctx.model.ask("C07 lazyseeks basic 0 - -") != "bad-op";
@@ -1091,7 +1180,7 @@ pub fn run(ctx: &mut Ctx, model_has_vint32: bool) {
         ctx.report.violation("model", "C07:model-unavailable", "the Lean driver answers bad-op for lazyseeks".into(), json!({"kind": "probe"}));
     }
     let mut rng3 = ctx.rng.fork();
-    for _ in 0..ctx.budget(120, 2500) {
+    for _ in 0..ctx.budget(120, 600) {
         let opt = *rng3.pick(&[Opt::Basic, Opt::Freqs, Opt::Positions]);
         let (d, t, _) = crate::props::c07::gen_posting_list(&mut rng3);
         let n = 1 + rng3.usize_below(6);
@@ -1107,6 +1196,17 @@ pub fn run(ctx: &mut Ctx, model_has_vint32: bool) {
             targets.sort();
         }
         check_lazy_seeks(ctx, opt, &(d, t), &targets, has_lazy);
+    }
+    let has_ops = ctx.model.ask("C07 lazyops basic 0 - -") != "bad-op";
+    if !has_ops {
+        ctx.report.violation("model", "C07:model-unavailable", "the Lean driver answers bad-op for lazyops".into(), json!({"kind": "probe"}));
+    }
+    let mut rng5 = ctx.rng.fork();
+    for _ in 0..ctx.budget(120, 600) {
+        let opt = *rng5.pick(&[Opt::Basic, Opt::Freqs, Opt::Positions]);
+        let (d, t, _) = crate::props::c07::gen_posting_list(&mut rng5);
+        let ops = gen_block_ops(&mut rng5, &d);
+        check_block_ops(ctx, opt, &(d, t), &ops, has_ops);
     }
     for (ndocs, opt) in [(50u32, Opt::Freqs), (400, Opt::Basic), (400, Opt::Freqs), (400, Opt::Positions)] {
         check_json_recycle(ctx, ndocs, opt);
